@@ -244,10 +244,8 @@ func dischargeAll(obs []*Oblig, dir string, timeoutS int, workers int) {
 			if ob.Expect == "sat" && to > 5 {
 				to = 5
 			}
-			first := []string{"z3-new", "cvc5"}
-			if ob.hasRec {
-				first = nil // recursive spec functions: race all three back ends
-			}
+			// all three back ends race (z3 4.8.12 decides some goals the newer ones do not, and vice versa)
+			var first []string
 			r := solveRace(ob.SMT, to, first)
 			if r.status == "unknown" && ob.Expect == "unsat" && first != nil {
 				r2 := solveRace(ob.SMT, to, []string{"z3"})
